@@ -34,6 +34,11 @@ func verifStub_findMatcherPos(expr string, within posrange.PositionRange, m *lab
 	return within
 }
 
+// position of the on()/ignoring() keyword inside a binary expression (two-selector jobs): presentation only
+func verifStub_utils_FindPosition(expr string, within posrange.PositionRange, fn string) posrange.PositionRange {
+	return within
+}
+
 func verifSelector() *promParser.VectorSelector {
 	return &promParser.VectorSelector{
 		Name: "foo",
@@ -136,4 +141,120 @@ func VerifHarness_Series() {
 	// the metric exists in the window but the selector returns nothing now: deeper steps of the decision tree run
 	// (crash-freedom only; what they should say depends on PromQL evaluation, which is outside the claim)
 	verifReach("ever-present")
+}
+
+// ---- two selectors in one rule: `foo / bar` (AST literal of the PromQL parser: one-to-one binary expression of two
+// bare vector selectors at 0..3 and 6..9). The verdict on one selector must not depend on what was found out about the
+// other one: per selector i, with c_i = count(selector_i) now and "never" = no sample of the metric in the window,
+//   c_i > 0                      => no problem points at selector i
+//   c_i = 0, never, not recorded => exactly one problem points at selector i, severity Bug
+//   c_i = 0, never, recorded     => exactly one problem points at selector i, severity Information
+// A problem "points at" the selector whose columns its first diagnostic carries.
+
+func verifBare(name string, start, end int) *promParser.VectorSelector {
+	return &promParser.VectorSelector{
+		Name:          name,
+		LabelMatchers: []*labels.Matcher{{Type: labels.MatchEqual, Name: labels.MetricName, Value: name}},
+		PosRange:      posrange.PositionRange{Start: posrange.Pos(start), End: posrange.Pos(end)},
+	}
+}
+
+// VerifHarness_Series2: parameters nentries (0..2), kinds (bit mask: recording/alerting), bare1, bare2 (0 = the
+// metric never had a sample in the window, 1 = it had).
+func VerifHarness_Series2() {
+	c1, c2 := verifInt("count1"), verifInt("count2")
+	verifAssume(c1 >= 0 && c1 <= 1000000)
+	verifAssume(c2 >= 0 && c2 <= 1000000)
+	promapi.VerifC16 = promapi.VerifC16State{
+		Selector: "foo", Bare: "foo", UptimeExpr: "up", Count: c1, BareRanges: verifParam("bare1"), Uptime: 1, LabelEver: verifParam("bare1") == 1,
+		Selector2: "bar", Bare2: "bar", Count2: c2, BareRanges2: verifParam("bare2"), LabelEver2: verifParam("bare2") == 1,
+	}
+	promapi.VerifC16Probes = nil
+	promapi.VerifC16Other = 0
+	fg := promapi.NewFailoverGroup("prom", "http://prom", nil, false, "up", nil, nil, nil)
+	text := "foo / bar"
+	entry := discovery.Entry{
+		Path:  discovery.Path{Name: "rules.yml", SymlinkTarget: "rules.yml"},
+		State: discovery.Noop,
+		Rule: parser.Rule{
+			Lines: diags.LineRange{First: 1, Last: 2},
+			RecordingRule: &parser.RecordingRule{
+				Record: parser.YamlNode{Value: "out", Pos: diags.PositionRanges{{Line: 1, FirstColumn: 11, LastColumn: 13}}},
+				Expr: parser.PromQLExpr{
+					Value: &parser.YamlNode{Value: text, Pos: diags.PositionRanges{{Line: 2, FirstColumn: 9, LastColumn: 17}}},
+					Query: &parser.PromQLNode{Expr: &promParser.BinaryExpr{
+						Op: promParser.DIV, LHS: verifBare("foo", 0, 3), RHS: verifBare("bar", 6, 9),
+						VectorMatching: &promParser.VectorMatching{Card: promParser.CardOneToOne},
+					}},
+				},
+			},
+		},
+	}
+	var others []discovery.Entry
+	rec1, rec2 := false, false
+	for i := 0; i < verifParam("nentries"); i++ {
+		tag := verifItoa(i)
+		name := verifAtom("ename"+tag, 1, "foo", "bar", "out")
+		broken := verifBool("ebroken" + tag)
+		var e discovery.Entry
+		e.Path = discovery.Path{Name: "other.yml", SymlinkTarget: "other.yml"}
+		if broken {
+			e.Rule.Error = parser.ParseError{Err: verifC16ParseErr{}, Line: 1}
+		}
+		if (verifParam("kinds")>>uint(i))&1 == 1 {
+			e.Rule.RecordingRule = &parser.RecordingRule{Record: parser.YamlNode{Value: name}}
+			rec1 = verifOr(rec1, verifAnd(name == "foo", !broken))
+			rec2 = verifOr(rec2, verifAnd(name == "bar", !broken))
+		} else {
+			e.Rule.AlertingRule = &parser.AlertingRule{Alert: parser.YamlNode{Value: name}}
+		}
+		others = append(others, e)
+	}
+	entries := append([]discovery.Entry{entry}, others...)
+
+	problems := NewSeriesCheck(fg).Check(context.Background(), entry, entries)
+
+	verifReach("end")
+	verifObserve("nproblems", len(problems))
+	n1, n2, other := 0, 0, 0
+	sev1, sev2 := Information, Information
+	for _, p := range problems {
+		col := 0
+		if len(p.Diagnostics) > 0 {
+			col = p.Diagnostics[0].FirstColumn
+		}
+		switch col {
+		case 1:
+			n1++
+			sev1 = p.Severity
+		case 7:
+			n2++
+			sev2 = p.Severity
+		default:
+			other++
+		}
+	}
+	verifAssert(other == 0, "every problem points at one of the two selectors")
+	verifSeries2Claim("first", c1, verifParam("bare1"), rec1, n1, sev1)
+	verifSeries2Claim("second", c2, verifParam("bare2"), rec2, n2, sev2)
+}
+
+func verifSeries2Claim(which string, count, bare int, recorded bool, n int, sev Severity) {
+	if count > 0 {
+		verifReach(which + "-present")
+		verifAssert(n == 0, "(a) a selector that currently returns series is not reported, whatever the other selector of the rule does")
+		return
+	}
+	if bare != 0 {
+		return
+	}
+	verifReach(which + "-never")
+	verifAssert(n == 1, "(b)/(c) a selector whose metric has no sample in the window is reported once")
+	if n == 1 {
+		if recorded {
+			verifAssert(sev == Information, "(c) a recording rule of the checked set produces this selector's metric: Information")
+		} else {
+			verifAssert(sev == Bug, "(b) nothing produces this selector's metric: Bug, whatever was found for the other selector")
+		}
+	}
 }
